@@ -173,9 +173,18 @@ struct Worker<'e> {
     no_min: bool,
     wa: Option<PathBuf>,
     max_viol: usize,
+    /// progress heartbeat (second word of the status file), bumped inside long units
+    heartbeat: Option<(std::fs::File, u64)>,
 }
 
 impl<'e> Worker<'e> {
+    fn beat(&mut self) {
+        if let Some((f, n)) = &mut self.heartbeat {
+            *n += 1;
+            let _ = f.write_at(&n.to_le_bytes(), 8);
+        }
+    }
+
     fn absorb(&mut self, out: &RunOut) {
         self.res.evaluations += 1;
         self.res.steps += out.steps as u64;
@@ -285,6 +294,7 @@ impl<'e> Worker<'e> {
             cases.truncate(8);
         }
         for case in cases {
+            self.beat();
             let e = self.res.fault_kinds.entry(case.kind.to_string()).or_insert((0, 0));
             e.0 += 1;
             if self.wa.is_some() {
@@ -392,8 +402,9 @@ pub fn worker_main(args: &[String]) -> i32 {
     let wa = args.iter().position(|a| a == "--wa").map(|i| PathBuf::from(&args[i + 1]));
     let env = detect_env();
     let pbit = prop_bit(&prop).expect("property id");
-    let mut w = Worker { env: &env, prop: prop.clone(), pbit, thorough, verif_seed, known: load_known(), res: WorkerResult::default(), digests: Vec::new(), states: Vec::new(), no_min, wa, max_viol: 3 };
+    let mut w = Worker { env: &env, prop: prop.clone(), pbit, thorough, verif_seed, known: load_known(), res: WorkerResult::default(), digests: Vec::new(), states: Vec::new(), no_min, wa, max_viol: 3, heartbeat: None };
     let status = std::fs::OpenOptions::new().create(true).write(true).truncate(true).open(prefix.with_extension("status")).expect("status file");
+    w.heartbeat = status.try_clone().ok().map(|f| (f, 0));
     for idx in from..to {
         let _ = status.write_at(&idx.to_le_bytes(), 0);
         let r = std::panic::catch_unwind(std::panic::AssertUnwindSafe(|| w.unit(idx)));
@@ -482,7 +493,7 @@ pub fn replay_main(path: &str) -> i32 {
             }
             // regenerate from the seed (used for crashes / hangs, where no concrete trace survived)
             let known = load_known();
-            let mut w = Worker { env: &env, prop: trace.property.clone(), pbit, thorough, verif_seed: trace.verif_seed, known, res: WorkerResult::default(), digests: vec![], states: vec![], no_min: true, wa: None, max_viol: 3 };
+            let mut w = Worker { env: &env, prop: trace.property.clone(), pbit, thorough, verif_seed: trace.verif_seed, known, res: WorkerResult::default(), digests: vec![], states: vec![], no_min: true, wa: None, max_viol: 3, heartbeat: None };
             w.unit(trace.run_index);
             for v in &w.res.violations {
                 println!("  violation [{}] {}: {}", v.property, v.class, v.msg);
@@ -523,7 +534,7 @@ struct Child {
     prefix: PathBuf,
     from: u64,
     to: u64,
-    last_status: u64,
+    last_progress: (u64, u64),
     last_change: Instant,
     done: bool,
 }
@@ -595,7 +606,7 @@ pub fn check_main(prop: &str, tier: &str) -> i32 {
             .stdout(std::process::Stdio::null())
             .spawn();
         match proc {
-            Ok(p) => children.push(Child { proc: p, prefix, from, to, last_status: u64::MAX - 1, last_change: Instant::now(), done: false }),
+            Ok(p) => children.push(Child { proc: p, prefix, from, to, last_progress: (u64::MAX - 1, 0), last_change: Instant::now(), done: false }),
             Err(e) => {
                 eprintln!("harness error: cannot spawn worker: {}", e);
                 return 2;
@@ -603,7 +614,7 @@ pub fn check_main(prop: &str, tier: &str) -> i32 {
         }
     }
     // supervise
-    let hang_limit = Duration::from_secs(std::env::var("LRUSIM_HANG_SECS").ok().and_then(|s| s.parse().ok()).unwrap_or(20));
+    let hang_limit = Duration::from_secs(std::env::var("LRUSIM_HANG_SECS").ok().and_then(|s| s.parse().ok()).unwrap_or(30));
     let mut dead: Vec<(u64, &'static str)> = Vec::new(); // (run index, how)
     let mut harness_failed = false;
     loop {
@@ -612,9 +623,9 @@ pub fn check_main(prop: &str, tier: &str) -> i32 {
             if c.done {
                 continue;
             }
-            let st = read_status(&c.prefix);
-            if st != c.last_status {
-                c.last_status = st;
+            let st = read_progress(&c.prefix);
+            if st != c.last_progress {
+                c.last_progress = st;
                 c.last_change = Instant::now();
             }
             match c.proc.try_wait() {
@@ -980,6 +991,15 @@ fn read_status(prefix: &Path) -> u64 {
     match std::fs::read(prefix.with_extension("status")) {
         Ok(b) if b.len() >= 8 => u64::from_le_bytes(b[..8].try_into().unwrap()),
         _ => u64::MAX - 1,
+    }
+}
+
+/// run index and heartbeat combined: changes whenever the worker makes any progress
+fn read_progress(prefix: &Path) -> (u64, u64) {
+    match std::fs::read(prefix.with_extension("status")) {
+        Ok(b) if b.len() >= 16 => (u64::from_le_bytes(b[..8].try_into().unwrap()), u64::from_le_bytes(b[8..16].try_into().unwrap())),
+        Ok(b) if b.len() >= 8 => (u64::from_le_bytes(b[..8].try_into().unwrap()), 0),
+        _ => (u64::MAX - 1, 0),
     }
 }
 
